@@ -3,12 +3,21 @@
 #ifndef __CPROVER__
 int ir2c_assert_failed;
 int ir2c_assume_failed;
-uint8_t nondet_u8(void) { return 0; }
-uint16_t nondet_u16(void) { return 0; }
-uint32_t nondet_u32(void) { return 0; }
-uint64_t nondet_u64(void) { return 0; }
+/* replay: inputs come from the file named by IR2C_INPUTS (one decimal value per line) */
+static FILE *ir2c_inf;
+static uint64_t ir2c_next_input(void) {
+  unsigned long long v = 0;
+  if (!ir2c_inf) { const char *p = getenv("IR2C_INPUTS"); if (p) ir2c_inf = fopen(p, "r"); }
+  if (ir2c_inf && fscanf(ir2c_inf, "%llu", &v) == 1) return v;
+  return 0;
+}
+uint8_t nondet_u8(void) { return (uint8_t)ir2c_next_input(); }
+uint16_t nondet_u16(void) { return (uint16_t)ir2c_next_input(); }
+uint32_t nondet_u32(void) { return (uint32_t)ir2c_next_input(); }
+uint64_t nondet_u64(void) { return (uint64_t)ir2c_next_input(); }
 #endif
 
+uint8_t ir2c_in_u8; uint16_t ir2c_in_u16; uint32_t ir2c_in_u32; uint64_t ir2c_in_u64;
 uint8_t *_ZTVN10__cxxabiv117__class_type_infoE[8];
 uint8_t *_ZTVN10__cxxabiv120__si_class_type_infoE[8];
 uint8_t *_ZTVN10__cxxabiv121__vmi_class_type_infoE[8];
@@ -62,7 +71,7 @@ void __cxa_rethrow(void) {
   ir2c_exc_obj = ir2c_caught[ir2c_ncaught - 1]; ir2c_exc_flag = 1;
 }
 void _ZSt9terminatev(void) { __CPROVER_assert(0, "std::terminate called"); __CPROVER_assume(0); }
-int32_t __cxa_guard_acquire(uint64_t *g) { if (*(uint8_t *)g) return 0; return 1; }
+uint32_t __cxa_guard_acquire(uint64_t *g) { if (*(uint8_t *)g) return 0; return 1; }
 void __cxa_guard_release(uint64_t *g) { *(uint8_t *)g = 1; }
 void __cxa_guard_abort(uint64_t *g) { (void)g; }
 void __cxa_pure_virtual(void) { __CPROVER_assert(0, "pure virtual call"); __CPROVER_assume(0); }
@@ -73,3 +82,10 @@ uint8_t *_Znam(uint64_t n) { uint8_t *p = (uint8_t *)malloc(n ? n : 1); __CPROVE
 void _ZdlPv(uint8_t *p) { free(p); }
 void _ZdaPv(uint8_t *p) { free(p); }
 void _ZdlPvm(uint8_t *p, uint64_t n) { (void)n; free(p); }
+/* destructors registered at exit are outside every harness */
+#ifdef IR2C_NEED___cxa_thread_atexit
+uint32_t __cxa_thread_atexit(void (*f)(uint8_t *), uint8_t *a, uint8_t *b) { (void)f; (void)a; (void)b; return 0; }
+#endif
+#ifdef IR2C_NEED___cxa_atexit
+uint32_t __cxa_atexit(void (*f)(uint8_t *), uint8_t *a, uint8_t *b) { (void)f; (void)a; (void)b; return 0; }
+#endif
